@@ -2,7 +2,7 @@
 from __future__ import annotations
 
 import ast
-from typing import Any, Callable, Iterable, Iterator, List, Optional, Sequence, Tuple
+from typing import Any, Callable, Dict, Iterable, Iterator, List, Optional, Sequence, Set, Tuple
 
 from .loader import AnalysisError, ClassInfo, FuncInfo, Module, Program, walk_shallow
 
@@ -353,3 +353,92 @@ def stale_index_deletes(fn: FuncInfo) -> List[Tuple[ast.AST, str, bool]]:
                 continue
             out.append((hit, f"positions of {seq} are walked in ascending order ({' '.join(ast.unparse(loop.iter).split())[:60]}) while elements are deleted by position", False))
     return out
+
+
+# ----------------------------------------------------------------------------- process-wide mutable state
+_MUT_CTORS = ("dict", "list", "set", "defaultdict", "OrderedDict", "deque", "Counter", "WeakValueDictionary", "WeakKeyDictionary")
+_MUT_METHODS = ("setdefault", "update", "append", "add", "pop", "clear", "extend", "insert", "popitem", "remove", "discard", "appendleft", "__setitem__", "__delitem__", "move_to_end")
+
+
+def _is_mutable_ctor(v: Optional[ast.AST]) -> bool:
+    if isinstance(v, (ast.Dict, ast.List, ast.Set, ast.DictComp, ast.ListComp, ast.SetComp)):
+        return True
+    if isinstance(v, ast.Call):
+        f = v.func
+        nm = f.id if isinstance(f, ast.Name) else (f.attr if isinstance(f, ast.Attribute) else "")
+        return nm in _MUT_CTORS
+    return False
+
+
+def process_wide_mutations(p: Program, fns: Iterable[FuncInfo]) -> List[Tuple[FuncInfo, ast.AST, str]]:
+    """Mutations (item store/delete, mutating method call) of containers that outlive a request: module-level mutable
+    constants and class-level mutable attributes (reached through self./cls./ClassName.).  Returns (fn, node, what)."""
+    out = []
+    for fn in fns:
+        mod = fn.module
+        mod_mut = {n for n, v in mod.constants.items() if _is_mutable_ctor(v)}
+        cls = fn.cls
+        f = fn
+        while cls is None and f.parent is not None:
+            f = f.parent
+            cls = f.cls
+        cls_mut: Dict[str, str] = {}
+        if cls is not None:
+            for c in [cls] + [b for b in p.mro(cls) if isinstance(b, ClassInfo)]:
+                for an, av in c.attrs.items():
+                    if _is_mutable_ctor(av) and an not in cls_mut and an != "__slots__":
+                        cls_mut[an] = c.fq
+        instance_rebound = set()
+        if cls is not None:
+            for c in [cls] + [b for b in p.mro(cls) if isinstance(b, ClassInfo)]:
+                for m in c.methods.values():
+                    for n in ast.walk(m.node):
+                        if isinstance(n, (ast.Assign, ast.AnnAssign)):
+                            for t in (n.targets if isinstance(n, ast.Assign) else [n.target]):
+                                if isinstance(t, ast.Attribute) and isinstance(t.value, ast.Name) and t.value.id == "self":
+                                    instance_rebound.add(t.attr)
+
+        def shared(e: ast.AST) -> Optional[str]:
+            if isinstance(e, ast.Name) and e.id in mod_mut and e.id not in fn.params:
+                return f"module-level {e.id}"
+            if isinstance(e, ast.Attribute) and e.attr in cls_mut and isinstance(e.value, ast.Name):
+                if e.value.id in ("cls",) or e.value.id == (cls.name if cls else None) or (e.value.id == "self" and e.attr not in instance_rebound):
+                    return f"class-level {cls_mut[e.attr].split(':')[-1]}.{e.attr}"
+            return None
+
+        for n in ast.walk(fn.node):
+            if isinstance(n, (ast.Assign, ast.AugAssign, ast.AnnAssign)):
+                for t in (n.targets if isinstance(n, ast.Assign) else [n.target]):
+                    if isinstance(t, ast.Subscript) and shared(t.value):
+                        out.append((fn, n, f"{shared(t.value)}[...] is assigned"))
+            elif isinstance(n, ast.Delete):
+                for t in n.targets:
+                    if isinstance(t, ast.Subscript) and shared(t.value):
+                        out.append((fn, n, f"an item of {shared(t.value)} is deleted"))
+            elif isinstance(n, ast.Call) and isinstance(n.func, ast.Attribute) and n.func.attr in _MUT_METHODS and shared(n.func.value):
+                out.append((fn, n, f"{shared(n.func.value)}.{n.func.attr}(...)"))
+    return out
+
+
+# ----------------------------------------------------------------------------- positive controls
+def controls_fire() -> List[str]:
+    """Run the zero-expected detectors on the committed fixture (sa/fixtures/controls): returns the list of detectors that
+    did NOT fire (empty = all alive)."""
+    import os
+
+    from .loader import Program as _P
+
+    root = os.path.join(os.path.dirname(os.path.abspath(__file__)), "fixtures", "controls")
+    cp = _P(root)
+    dead = []
+    muts = process_wide_mutations(cp, cp.all_functions())
+    kinds = " | ".join(w for _, _, w in muts)
+    if not ("class-level Memo.memo" in kinds and "Memo.order" in kinds and "module-level CACHE" in kinds):
+        dead.append("process_wide_mutations")
+    rb = method_rebinds(cp)
+    if not any(attr == "lookup" and is_cache for _, _, _, attr, _, is_cache in rb):
+        dead.append("method_rebinds")
+    sh = cp.module("baize").functions.get("shrink")
+    if sh is None or not any(not ok for _, _, ok in stale_index_deletes(sh)):
+        dead.append("stale_index_deletes")
+    return dead
